@@ -146,7 +146,9 @@ def stmt_batch(task):
     top.domains.sync = cd
     ins = {i: Signal(Shape(*sh), name=f"in{i}") for i, sh in c02.INPUTS.items()}
     # layout: "flat" | "child" (every second module term lives in a submodule) | "deep" (grandchild + sibling)
+    #         | "shell" (all logic in a module nested inside purely structural modules: one without any statement, one with wiring only)
     child, grand, sib = Module(), Module(), Module()
+    shell, wiring, inner = Module(), Module(), Module()
     copies = []
     for n, stmts in enumerate(mods_):
         sigs = dict(ins)
@@ -157,22 +159,35 @@ def stmt_batch(task):
             where = child
         elif layout == "deep":
             where = (top, child, grand, sib)[n % 4]
+        elif layout == "shell":
+            where = inner
         try:
             c02.emit(where, where.d[domain], stmts, sigs)
         except Exception:
             continue
         copies.append((stmts, sigs))
-    if layout != "flat":
+    if layout == "shell":
+        wiring.submodules.inner = inner
+        shell.submodules.wiring = wiring
+        top.submodules.shell = shell
+    elif layout != "flat":
         child.submodules.grand = grand
         top.submodules.child = child
         top.submodules.sib = sib
     keep = Signal(10, name="keep")
     top.d.comb += keep.eq(Cat(*ins.values()))
+    if layout == "shell":
+        # plain full-signal assignment: wiring, no cell
+        passthru = Signal(10, name="passthru")
+        wiring.d.comb += passthru.eq(keep)
+        extra_ports = [passthru]
+    else:
+        extra_ports = []
     frag = elaborate(top)
     drv_idx = sorted(c02.DRIVEN)
     outs = [sigs[i] for _s, sigs in copies for i in drv_idx]
     try:
-        text = convert(frag, list(ins.values()) + [cd.clk, cd.rst] + outs)
+        text = convert(frag, list(ins.values()) + [cd.clk, cd.rst] + outs + extra_ports)
         mods, probs = parse(text)
         it = Interp(mods)
     except Exception as ex:
@@ -369,7 +384,17 @@ def _counter(edge="pos", async_reset=False, reset_less=False, hier=False):
         acc = Signal(signed(3), init=-1, name="acc", reset_less=True)
         y = Signal(3, name="y")
         tgt = m
-        if hier:
+        if hier == "shell":
+            # the logic sits below a module without statements and a module with wiring only
+            tgt = Module()
+            shell, wiring = Module(), Module()
+            y2 = Signal(2, name="y2")
+            wiring.d.comb += y2.eq(cnt)
+            wiring.submodules.core = tgt
+            shell.submodules.wiring = wiring
+            m.submodules.shell = shell
+            extra = [y2]
+        elif hier:
             tgt = Module()
             m.submodules.core = tgt
         with tgt.If(en):
@@ -377,7 +402,7 @@ def _counter(edge="pos", async_reset=False, reset_less=False, hier=False):
         tgt.d.sync += acc.eq(acc - d.as_signed())
         m.d.comb += y.eq(cnt ^ acc[:2])
         ins = [en, d] + ([] if reset_less else [cd.rst])
-        return m, ins, [cd.clk], [cnt, acc, y]
+        return m, ins, [cd.clk], [cnt, acc, y] + (extra if hier == "shell" else [])
     return build
 
 
@@ -531,7 +556,7 @@ def _cdc(kind):
 SEQ_DESIGNS = {
     "counter-pos": _counter(), "counter-neg": _counter(edge="neg"), "counter-arst": _counter(async_reset=True),
     "counter-arst-neg": _counter(edge="neg", async_reset=True), "counter-resetless": _counter(reset_less=True),
-    "counter-hier": _counter(hier=True), "two-domains": _two_domains,
+    "counter-hier": _counter(hier=True), "counter-shell": _counter(hier="shell"), "two-domains": _two_domains,
     "mem-transparent": _memory(True), "mem-nontransparent": _memory(False), "mem-gran1": _memory(True, gran=1),
     "mem-combread": _memory(comb_read=True), "mem-depth4-rst": _memory(True, depth=4, with_rst=True),
     # partial-row writes: granularity strictly between 1 and the row width (data alphabet reduced to lane-distinguishing values)
@@ -542,7 +567,7 @@ SEQ_DESIGNS = {
     "wrap-reset": _wrapped("reset"), "wrap-enable": _wrapped("enable"), "wrap-rename": _wrapped("rename"),
     "wrap-enable-reset": _wrapped("enable-reset"), "wrap-reset-dict": _wrapped("reset-dict"), "data-views": _views,
 }
-QUICK_SEQ = ["counter-pos", "counter-neg", "counter-arst", "counter-arst-neg", "counter-resetless", "counter-hier", "two-domains",
+QUICK_SEQ = ["counter-pos", "counter-neg", "counter-arst", "counter-arst-neg", "counter-resetless", "counter-hier", "counter-shell", "two-domains",
              "mem-transparent", "mem-nontransparent", "mem-gran1", "mem-combread", "mem-gran2-w4", "mem-gran2-w4-comb", "syncfifo-2", "syncfifobuf-3", "ffsync", "asyncffsync", "pulsesync",
              "wrap-reset", "wrap-enable", "wrap-rename", "wrap-enable-reset", "wrap-reset-dict", "data-views"]
 
@@ -586,10 +611,10 @@ def run(rep):
         size = max(8, 120 >> max(0, bits - 6))
         sel = ms if not rep.quick else ms[::4]
         for n, ch in enumerate(chunks(sel, size)):
-            tasks.append(("stmt", (ch, "comb", ("flat", "child", "deep")[n % 3])))
+            tasks.append(("stmt", (ch, "comb", ("flat", "child", "deep", "shell")[n % 4])))
         sel = ms[::2] if not rep.quick else ms[::12]
         for n, ch in enumerate(chunks(sel, max(4, size // 3))):
-            tasks.append(("stmt", (ch, "sync", ("deep", "flat", "child")[n % 3])))
+            tasks.append(("stmt", (ch, "sync", ("deep", "shell", "flat", "child")[n % 4])))
     for name in (QUICK_SEQ if rep.quick else list(SEQ_DESIGNS)):
         tasks.append(("seq", (name, rep.pick(5, 10), rep.pick(700, 40000))))
     if only:
@@ -598,8 +623,8 @@ def run(rep):
     tasks = [t for t in tasks if t[0] == "seq"] + rotate([t for t in tasks if t[0] != "seq"], rep.seed)
     for part in pmap(_dispatch, tasks, rep.procs):
         rep.merge(part)
-    rep.setcov("rule", "programs = RTLIL documents converted from: expression batches (C01 term space), statement batches (C02 module-term space, flat "
-               "and split over child/grandchild/sibling modules), sequential designs explored by joint BFS; every comparison point is one "
+    rep.setcov("rule", "programs = RTLIL documents converted from: expression batches (C01 term space), statement batches (C02 module-term space, flat, "
+               "split over child/grandchild/sibling modules, and nested inside purely structural modules), sequential designs explored by joint BFS; every comparison point is one "
                "(output or register, stimulus) pair; disagreements_checked counts the points where simulator and RTLIL differed (each triaged "
                "against the reference semantics and the recorded $shift finding)")
     rep.setcov("exhaustive", True)
